@@ -1,6 +1,7 @@
 package props
 
 import (
+	"strconv"
 	"encoding/json"
 	"fmt"
 	"math"
@@ -282,12 +283,48 @@ func c11CheckMalformed(r *fw.Rec, text string) {
 	r.Sample("malformed", map[string]any{"text": text, "compile_error": co.Err.Error()})
 }
 
+// escape grid: \u followed by every 4-character string over an alphabet of hex
+// digits and near-misses, and a backslash followed by every printable ASCII
+// character. What encoding/json accepts must denote the same value; everything
+// else (and lone surrogates) must be a compile error.
+const c11UAlpha = "04aFd8g+- _x"
+
+func c11EscapeGridN() int64 { return 12*12*12*12 + 95 }
+
+func c11EscapeGrid(r *fw.Rec, i int64) {
+	var esc string
+	if i < 12*12*12*12 {
+		b := []byte{'\\', 'u', 0, 0, 0, 0}
+		for k := 5; k >= 2; k-- {
+			b[k] = c11UAlpha[i%12]
+			i /= 12
+		}
+		esc = string(b)
+	} else {
+		esc = "\\" + string(rune(0x20+i-12*12*12*12))
+	}
+	text := `"x` + esc + `y"`
+	var want string
+	err := json.Unmarshal([]byte(text), &want)
+	if err == nil && len(esc) == 6 {
+		if n, perr := strconv.ParseUint(esc[2:], 16, 16); perr == nil && n >= 0xD800 && n <= 0xDFFF {
+			err = fmt.Errorf("lone surrogate")
+		}
+	}
+	if err != nil {
+		c11CheckMalformed(r, text)
+		r.Tag("escape-grid:malformed")
+		return
+	}
+	c11Check(r, text, "escape-grid:valid")
+}
+
 func init() {
 	nStr := c11NStrings()
 	fw.Register(&fw.Prop{
 		ID: "C11", Title: "JSON texts are expressions that denote themselves",
 		Rule: fmt.Sprintf("cases: (a) exhaustive: all %d string literals of <=3 units over a 20-unit alphabet of JSON escapes (incl. \\uXXXX and a surrogate pair), raw BMP/astral characters and JSONata metacharacters, each double-quoted and rewritten single-quoted; ", nStr) +
-			"(b) a fixed list of malformed texts (bad escapes, unpaired surrogates, out-of-range and non-JSON numbers, trailing commas, unterminated strings) that must be compile errors; (c) PRNG-generated RFC 8259 texts of depth<=5, width<=4 with unique keys: every escape form, all number syntaxes (-0, exponent forms, 17+ digits, subnormals, 1e308), empty and nested containers, arbitrary inter-token whitespace. " +
+			"(b) a fixed list of malformed texts (bad escapes, unpaired surrogates, out-of-range and non-JSON numbers, trailing commas, unterminated strings) that must be compile errors; (b2) the escape grid: \\u followed by each of the 20736 four-character strings over the alphabet 0 4 a F d 8 g + - space _ x, and a backslash followed by each printable ASCII character: what encoding/json accepts must denote the same value, everything else and lone surrogates must be compile errors; (c) PRNG-generated RFC 8259 texts of depth<=5, width<=4 with unique keys: every escape form, all number syntaxes (-0, exponent forms, 17+ digits, subnormals, 1e308), empty and nested containers, arbitrary inter-token whitespace. " +
 			"Oracle: encoding/json's decoding of the same text; EvalBytes(text-as-expression) on two different inputs must decode to exactly that value (numbers bit-for-bit except the sign of zero). non-trivial = every case; distinct by text",
 		Assumptions: []string{"encoding/json is the JSON parser of reference, except for unpaired surrogates, where the statement (compile error) is the oracle", "object keys are unique"},
 		Plan: func(tier string, seed uint64) *fw.Plan {
@@ -296,6 +333,8 @@ func init() {
 				nRand = 1000000
 			}
 			nm := int64(len(c11Malformed))
+			ng := c11EscapeGridN()
+			nRand += ng
 			return &fw.Plan{N: 2*nStr + nm + nRand,
 				Subspaces: []string{fmt.Sprintf("%d string literals x 2 quote styles", nStr), fmt.Sprintf("%d malformed texts", nm)},
 				Run: func(i int64, r *fw.Rec) {
@@ -306,6 +345,8 @@ func init() {
 						c11CheckSingle(r, c11StringLit(i-nStr))
 					case i < 2*nStr+nm:
 						c11CheckMalformed(r, c11Malformed[i-2*nStr])
+					case i < 2*nStr+nm+ng:
+						c11EscapeGrid(r, i-2*nStr-nm)
 					default:
 						rr := prng.New(seed, 0xC11, uint64(i))
 						g := &c11Gen{r: rr, tags: map[string]bool{}}
